@@ -539,7 +539,7 @@ func runTiming(r *proxyRig, org *origin, sc scenario, hello []byte) (res timingR
 
 func genTiming(lim limits, tier string, r *rng.R) []scenario {
 	var out []scenario
-	wait := max(lim.Idle, lim.Rhdr, lim.TLS, lim.PP) + 450
+	wait := max(lim.Idle, lim.Rhdr, lim.TLS, lim.PP) + 300
 	add := func(st stack, name, phase string, v2 bool, script ...action) {
 		out = append(out, scenario{Name: st.Name + "/" + name, Stack: st.Name, Script: script, Phase: phase, PPv2: v2, WaitMs: wait, Lim: lim})
 	}
@@ -631,10 +631,10 @@ func genTimingRead(tier string) []scenario {
 		sts = stacks
 	}
 	for li, lim := range []limits{
-		{Idle: 420, Rhdr: 300, Read: 520, TLS: 360, PP: 240},
-		{Idle: 0, Rhdr: 0, Read: 350, TLS: 360, PP: 240},
+		{Idle: 420, Rhdr: 250, Read: 600, TLS: 500, PP: 200},
+		{Idle: 0, Rhdr: 0, Read: 350, TLS: 500, PP: 200},
 	} {
-		wait := max(lim.Idle, lim.Rhdr, lim.Read, lim.TLS, lim.PP) + 450
+		wait := max(lim.Idle, lim.Rhdr, lim.Read, lim.TLS, lim.PP) + 500
 		for _, st := range sts {
 			var pre []action
 			if st.PP {
@@ -916,7 +916,9 @@ func main() {
 	flag.Parse()
 	t00 := time.Now()
 	r := rng.New(*seed)
-	lim := limits{Idle: 420, Rhdr: 300, Read: 0, TLS: 360, PP: 240}
+	// pairwise at least 150 ms apart, i.e. further than the lateness tolerance: a stall cut by the wrong
+	// limit (e.g. a listener handshake cut by the idle timeout) can never pass for the right one
+	lim := limits{Idle: 650, Rhdr: 350, Read: 0, TLS: 500, PP: 200}
 	if *tier == "thorough" {
 		// a second, randomly drawn set of limits is used for half of the scenarios
 		_ = r
@@ -955,7 +957,7 @@ func main() {
 		asc = genAccept(lim, *tier)
 		if *tier == "thorough" {
 			for k := 2; k <= 8; k++ {
-				lim2 := limits{Idle: 300 + r.Intn(200), Rhdr: 200 + r.Intn(150), Read: 0, TLS: 250 + r.Intn(150), PP: 150 + r.Intn(150)}
+				lim2 := limits{Idle: 640 + r.Intn(40), Rhdr: 330 + r.Intn(40), Read: 0, TLS: 485 + r.Intn(40), PP: 180 + r.Intn(40)}
 				for _, s := range genTiming(lim2, *tier, r) {
 					s.Name += fmt.Sprintf("#%d", k)
 					tsc = append(tsc, s)
